@@ -232,6 +232,7 @@ def r_expand(P, u, rep):
                where=where, facts=facts)
     _objlike_paste(P, u, rep, objlike_passes)
     _splice_flags(P, u, rep, it, paths)
+    _only_first_token_stamped(P, u, rep, it, paths)
     if n_obj == 0:
         rep.undecided('R09.2', '%s:%s:no-objlike-path' % (U, fn), 'no path expands an object-like macro', where=where)
     if n_fun == 0:
@@ -365,6 +366,62 @@ def _pass_keeps_has_space(it, ctx, A, g, wg, facts, outl, want):
         A.ob('R09.18', '%s:%s:%s-token-has_space' % (U, g, case), verdict == 'kept',
              {'copied': '%s copies a token of the replacement list (not the first) but leaves %s in its has_space: `#define L a , b` / XSTR(L) must give "a , b"',
               'pasted': '%s leaves %s in has_space of the token made by ## instead of the white space of the left operand (the tokenizer gives the first token of a fresh buffer none): `#define L x a ## b` / XSTR(L) gives "xab" instead of "x ab"'}[case] % (g, _hs_text(v)), wg, facts)
+
+
+def _kept(it, old, new):
+    """a store of `new` over `old`: 'kept' | 'changed' | 'unknown'"""
+    if old is not None and (new is old or (isinstance(new, View) and isinstance(old, View) and new.cell is old.cell and new.tag == old.tag)):
+        return 'kept'
+    c, oc = it.settle(new), it.settle(old) if old is not None else None
+    if isinstance(c, int) and isinstance(oc, int):
+        return 'kept' if bool(c) == bool(oc) else 'changed'
+    if isinstance(c, int) or isinstance(new, View):
+        return 'changed'
+    return 'unknown'
+
+
+def _only_first_token_stamped(P, u, rep, it, paths):
+    """R09.18 on expand_macro: the one token whose has_space an expansion may replace is the token it hands back through *rest
+    (R19.2 first-token / R09.15 say with what); the other tokens of the replacement, the tokens of the invocation and the
+    tokens after it keep theirs"""
+    fn = 'expand_macro'
+    A = Agg(rep)
+    where = '%s:%d' % (U, u.fn(fn).line)
+    for ctx, out, rest in paths:
+        if out[0] != 'ret' or isinstance(rest, int):
+            continue
+        names = [e[1] for e in ctx.events if e[0] == 'call']
+        kind = 'builtin' if any(e[0] == 'icall' for e in ctx.events) else ('funclike' if 'read_macro_args' in names else 'objlike')
+        R = as_obj(it, rest)
+        skip = {id(R)}
+        repl, foll = set(), set()
+        for e in ctx.events:
+            if e[0] == 'call' and e[1] == 'append' and len(e[2]) == 2:
+                B, N = as_obj(it, e[2][0]), as_obj(it, e[2][1])
+                if isinstance(B, Obj):
+                    skip.add(id(B))     # append copies it and the copy is what *rest designates
+                    repl |= set(id(x) for x in chain(it, B, limit=8)[0])
+                if isinstance(N, Obj):
+                    foll |= set(id(x) for x in chain(it, N, limit=8)[0])
+        facts = {'path': ctx.trail}
+        bad = False
+        for e in ctx.events:
+            if e[0] != 'fstore' or e[2] != HS or not isinstance(e[1], Obj) or e[1].tname != 'Token' or id(e[1]) in skip:
+                continue
+            role = 'replacement-token-after-the-first' if id(e[1]) in repl else ('token-after-the-invocation' if id(e[1]) in foll else 'other-token')
+            verdict = _kept(it, e[3], e[4])
+            if verdict == 'kept':
+                continue
+            bad = True
+            if verdict == 'unknown':
+                rep.undecided('R09.18', '%s:%s:%s-%s-has_space-written' % (U, fn, kind, role), 'has_space of %s is written with a value the rule cannot relate to its old value (%s)' % (strip_ids(e[1].label or 'a token'), _hs_text(e[4])), where=where)
+                continue
+            A.ob('R09.18', '%s:%s:%s-%s-has_space-written' % (U, fn, kind, role), False,
+                 'expanding a%s macro stores %s into has_space of %s, which is not the first token of the replacement: the white space inside the replacement list (or after the invocation) is part of what a later # spells (`#define L a , b` / XSTR(L) must give "a , b"; XSTR(L;) "a , b;")' % (
+                     {'builtin': ' dynamic', 'objlike': 'n object-like', 'funclike': ' function-like'}[kind], _hs_text(e[4]), strip_ids(e[1].label or 'a token')), where, facts)
+        if not bad:
+            A.ob('R09.18', '%s:%s:%s-only-the-first-token-is-stamped' % (U, fn, kind), True, '', where, facts)
+    A.flush()
 
 
 def _splice_flags(P, u, rep, it, paths):
@@ -2015,9 +2072,9 @@ def r_hideset_prims(P, u, rep):
                      'add_hideset modifies the macro body in place (later expansions of the same macro inherit stale hide sets)', ln('add_hideset'))
                 same = all(o.fields.get(f) == t.fields.get(f) for f in ('kind', 'loc', 'len', 'at_bol', 'has_space'))
                 A.ob('R09.7', '%s:add_hideset:other-fields-kept' % U, same, 'add_hideset changes kind/spelling/white-space flags of a token', ln('add_hideset'))
-    for n1 in (0, 1, 2):
-        t1 = mk_tokens([{'loc': 'p%d' % i} for i in range(n1)], eof, ident)
-        t2 = mk_tokens([{'loc': 'q'}], eof, ident)
+    for n1, fv in ((0, 0), (1, 0), (2, 0), (0, 1), (1, 1), (2, 1)):
+        t1 = mk_tokens([{'loc': 'p%d' % i, 'has_space': (i + fv) % 2} for i in range(n1)], eof, ident)
+        t2 = mk_tokens([{'loc': 'q', 'has_space': fv}], eof, ident)
         r = _run1(it, 'append', [t1[0], t2[0]])
         out, tail = chain(it, r)
         locs = [o.fields.get('loc') for o in out]
@@ -2026,6 +2083,11 @@ def r_hideset_prims(P, u, rep):
              'append(list of %d tokens, [q]) yields spellings %s instead of %s' % (n1, locs, want), ln('append'))
         A.ob('R09.7', '%s:append:second-list-shared-first-copied' % U, len(out) >= n1 + 1 and out[n1] is t2[0] and all(out[i] is not t1[i] for i in range(n1)) and [o.fields.get('loc') for o in chain(it, t1[0])[0]] == ['p%d' % i for i in range(n1)] + [''],
              'append links the macro body itself into the output (the stored body is corrupted by later splices) or copies the continuation', ln('append'))
+        if locs == want:
+            got_f = [it.settle(o.fields.get('has_space', 0)) for o in out[:n1 + 1]]
+            want_f = [(i + fv) % 2 for i in range(n1)] + [fv]
+            A.ob('R09.18', '%s:append:has_space-of-both-lists-kept' % U, got_f == want_f,
+                 'append(list of %d tokens, [q]) leaves has_space %s in the spliced tokens where the operands had %s: the white space inside a replacement, or before the token that follows the invocation, changes in a later stringification' % (n1, got_f, want_f), ln('append'))
     A.flush()
 
 
